@@ -36,6 +36,24 @@ Theorem C12_pool_accounting : forall fa c cs u u' acc,
   u' = u + sum_f acc /\ u' - c <= fused_to_plasma fa /\ c <= u'.
 Proof. exact pool_accounting. Qed.
 
+(* the same sequence observed step by step (the chain plasma the harness reads from the real store after every
+   candidate): an accepted candidate books exactly its fused plasma, a refused one nothing, and after EVERY step the
+   plasma booked for the unconfirmed blocks is within what the fused QSR provides; the last value is pool_run's *)
+Theorem C12_pool_trace_step : forall fa c u k r,
+  0 <= c <= u -> 0 <= c_f k < two64 -> 0 <= c_d k < two64 ->
+  exists code u1, pool_trace fa c u (k :: r) = (code, u1) :: pool_trace fa c u1 r /\
+    ((code = 0 /\ u1 = u + c_f k /\ (u - c) + c_f k <= fused_to_plasma fa) \/ (code <> 0 /\ u1 = u)).
+Proof. exact pool_trace_step. Qed.
+Theorem C12_pool_trace_bounded : forall fa c cs u,
+  0 <= c <= u -> u - c <= fused_to_plasma fa ->
+  Forall (fun k => 0 <= c_f k < two64 /\ 0 <= c_d k < two64) cs ->
+  Forall (fun p => c <= snd p /\ snd p - c <= fused_to_plasma fa) (pool_trace fa c u cs).
+Proof. exact pool_trace_bounded. Qed.
+Theorem C12_pool_trace_is_pool_run : forall fa c cs u,
+  length (pool_trace fa c u cs) = length cs /\
+  last (map snd (pool_trace fa c u cs)) u = fst (pool_run fa c u cs).
+Proof. exact pool_trace_is_pool_run. Qed.
+
 Theorem C12_pow_plasma_bounded_monotone : forall d1 d2, 0 <= d1 <= d2 -> d2 < two64 ->
   0 <= difficulty_to_plasma d1 <= difficulty_to_plasma d2 /\ difficulty_to_plasma d2 <= MaxPoWPlasmaForAccountBlock.
 Proof. exact d2p_bounded_monotone. Qed.
@@ -77,7 +95,7 @@ Proof. exact greater_is_source. Qed.
 
 (* the plasma decision the theorems above are about is the code: vm.AvailablePlasma (vm/plasma.go) and vm.enoughPlasma
    (vm/vm.go) as translated by go2coq on every run; store reads, GetBasePlasmaForAccountBlock, IsEmbeddedAddress and the
-   result of AddChainPlasma are inputs of the translations. C12_source_accept_sound restates C12_plasma_sound directly
+   result of AddChainPlasma are inputs of the translations, the ARGUMENT of AddChainPlasma is an output. C12_source_accept_sound restates C12_plasma_sound directly
    about the translated source: nil returned for a user block only if the three conditions of the property hold. *)
 Theorem C12_available_is_the_source : forall fa c u,
   ZV.gen.PurePlasma.AvailablePlasma c 0 fa 0 u 0 =
@@ -95,17 +113,29 @@ Theorem C12_enough_plasma_is_the_source : forall fa c u base f d tp bp addres,
   ZV.gen.PurePlasma.enoughPlasma tp bp false (fst av) (snd av) f d base 0 addres =
   match enough_plasma fa c u base f d with
   | PPanic => GoSem.Panic
-  | PErr 1 => GoSem.Ok (ZV.gen.Pure.Err_constants_ErrNotEnoughPlasma, tp, bp)
-  | PErr 2 => GoSem.Ok (ZV.gen.Pure.Err_constants_ErrBlockPlasmaLimitReached, total, bp)
-  | PErr _ => GoSem.Ok (ZV.gen.Pure.Err_constants_ErrNotEnoughTotalPlasma, total, base)
-  | POk t b _ => GoSem.Ok (addres, t, b)
+  | PErr 1 => GoSem.Ok (ZV.gen.Pure.Err_constants_ErrNotEnoughPlasma, tp, bp, None)
+  | PErr 2 => GoSem.Ok (ZV.gen.Pure.Err_constants_ErrBlockPlasmaLimitReached, total, bp, None)
+  | PErr _ => GoSem.Ok (ZV.gen.Pure.Err_constants_ErrNotEnoughTotalPlasma, total, base, None)
+  | POk t b _ => GoSem.Ok (addres, t, b, Some f)
   end.
 Proof. exact enough_plasma_is_source. Qed.
-Theorem C12_source_accept_sound : forall fa c u base f d tp bp total b,
+(* the amount booked into the account's chain-plasma counter. The last component of the translated enoughPlasma is the
+   ARGUMENT it hands to context.AddChainPlasma (None on the paths that do not reach the call); AddChainPlasma_sum is the
+   statement of accountStore.AddChainPlasma (chain/account/plasma.go) that adds it to the stored counter, translated
+   from source as well. The model's new counter is exactly that sum of the block's FusedPlasma. *)
+Theorem C12_booked_amount_is_the_source : forall fa c u base f d t b nc,
+  enough_plasma fa c u base f d = POk t b nc -> nc = ZV.gen.PurePlasma.AddChainPlasma_sum f u.
+Proof. exact enough_plasma_books_source. Qed.
+Theorem C12_source_accept_sound : forall fa c u base f d tp bp total b booked,
   0 <= c <= u -> 0 <= f < two64 -> 0 <= d < two64 ->
   let av := ZV.gen.PurePlasma.AvailablePlasma c 0 fa 0 u 0 in
-  ZV.gen.PurePlasma.enoughPlasma tp bp false (fst av) (snd av) f d base 0 0 = GoSem.Ok (0, total, b) ->
+  ZV.gen.PurePlasma.enoughPlasma tp bp false (fst av) (snd av) f d base 0 0 = GoSem.Ok (0, total, b, booked) ->
   b = base /\ base <= total <= MaxPlasmaForAccountBlock /\ total = f + difficulty_to_plasma d /\
-  (u - c) + f <= fused_to_plasma fa.
+  (u - c) + f <= fused_to_plasma fa /\
+  booked = Some f /\ ZV.gen.PurePlasma.AddChainPlasma_sum f u = u + f.
 Proof. exact source_accept_sound. Qed.
-
+Theorem C12_source_refusal_books_nothing : forall fa c u base f d tp bp e total b booked,
+  let av := ZV.gen.PurePlasma.AvailablePlasma c 0 fa 0 u 0 in
+  ZV.gen.PurePlasma.enoughPlasma tp bp false (fst av) (snd av) f d base 0 0 = GoSem.Ok (e, total, b, booked) ->
+  e <> 0 -> booked = None.
+Proof. exact source_refusal_books_nothing. Qed.
